@@ -371,5 +371,12 @@ def judge_records(ctx, module, trace_path, sig_fn=None, nontrivial_fn=None, chun
         if verdict.startswith("harness:"):
             raise ToolError("harness produced a malformed record %d: %s %s" % (idx, verdict, r))
         sig = sig_fn(r, verdict) if sig_fn else verdict
-        ctx.violation(sig, verdict, r)
+        detail = None
+        if case_start is not None:
+            # attach the case (records since the last case start) for stateful traces
+            k = idx
+            while k > 0 and not case_start(json.dumps(recs[k], separators=(",", ":"))) and idx - k < 200:
+                k -= 1
+            detail = {"case_records": recs[k:idx + 1]}
+        ctx.violation(sig, verdict, r, detail)
     return j
